@@ -90,6 +90,12 @@ def cases(tier, rng):
         good = [p for p in NAMES if (l, p) in COMPAT][0]
         out.append("u%d sock %s / attach a %s id=- / attach b %s id=- / dropped a / dropped b" % (k, l, good, good))
         k += 1
+    # a peer announcing the identity a counter-like generator would hand out next, then a peer announcing none: the
+    # generated identity must be fresh with respect to EVERY identity in use
+    for l in LOCALS:
+        good = [p for p in NAMES if (l, p) in COMPAT][0]
+        out.append("w%d sock %s / attach p %s / attach a %s id=next+1 / attach q %s / dropped p / dropped a / dropped q" % (k, l, good, good, good))
+        k += 1
     # admission is independent of segmentation (C02 hand-over) and needs no EOF
     for l in LOCALS:
         good = [p for p in NAMES if (l, p) in COMPAT][0]
@@ -103,6 +109,10 @@ def cases(tier, rng):
 _model_cases = {}
 
 
+def compare_filter(line):
+    return not line.startswith("w")
+
+
 def model_cases(case_lines):
     """The model is asked the admission verdict for the same bytes."""
     mc = []
@@ -111,7 +121,7 @@ def model_cases(case_lines):
         if sp[1] != "sock":
             mc.append(line)
             continue
-        if sp[0].startswith("u"):
+        if sp[0].startswith(("u", "w")):
             mc.append(line)
             continue
         raw = [t for t in sp if t.startswith("raw=")][0][4:]
@@ -166,6 +176,13 @@ def judge(line, impl_obs, orc):
         return None if impl_obs == want else "socket type name %r -> %s" % (name, impl_obs)
     local = sp[2]
     toks = impl_obs.split()
+    if sp[0].startswith("w"):
+        keep = "r" if local == "PUSH" else "-"
+        ok = (len(toks) == 6 and toks[0] == "att:p=ok:auto" and toks[1].startswith("att:a=ok:") and "auto" not in toks[1]
+              and toks[2] == "att:q=ok:auto" and toks[3:] == ["dropped:p=" + keep, "dropped:a=" + keep, "dropped:q=" + keep])
+        if not ok:
+            return "a generated identity must be fresh with respect to every identity in use (announced ones included): " + impl_obs[:160]
+        return None
     if sp[0].startswith("u"):
         keep = "r" if local == "PUSH" else "-"
         want = ["att:a=ok:auto", "att:b=ok:auto", "dropped:a=" + keep, "dropped:b=" + keep]
